@@ -2,6 +2,7 @@ package props
 
 import (
 	"bytes"
+	"context"
 	"fmt"
 	"io"
 	"math/rand"
@@ -17,7 +18,6 @@ import (
 	"github.com/ipfs/go-cid"
 	"github.com/ipld/go-ipld-prime"
 	cidlink "github.com/ipld/go-ipld-prime/linking/cid"
-	"github.com/ipld/go-ipld-prime/storage/memstore"
 	"github.com/ipni/go-libipni/dagsync/ipnisync"
 	"github.com/ipni/go-libipni/ingest/schema"
 	"github.com/ipni/go-libipni/maurl"
@@ -34,19 +34,64 @@ import (
 // Store is a memstore-backed link system that logs writes.
 type Store struct {
 	Lsys   ipld.LinkSystem
-	Mem    *memstore.Store
+	Mem    *lockedMem
 	mu     sync.Mutex
 	Writes []string // keys committed, in order (logical clock in WriteAt)
 	OnPut  func(key string)
 }
 
-type loggingStore struct {
-	*memstore.Store
-	s *Store
+// lockedMem is a thread-safe in-memory block store (go-ipld-prime's memstore is not
+// safe for the concurrent syncs of several publishers into one destination store).
+type lockedMem struct {
+	mu  sync.RWMutex
+	Bag map[string][]byte
+}
+
+func (m *lockedMem) Has(_ context.Context, key string) (bool, error) {
+	m.mu.RLock()
+	defer m.mu.RUnlock()
+	_, ok := m.Bag[key]
+	return ok, nil
+}
+
+func (m *lockedMem) Get(_ context.Context, key string) ([]byte, error) {
+	m.mu.RLock()
+	defer m.mu.RUnlock()
+	b, ok := m.Bag[key]
+	if !ok {
+		return nil, fmt.Errorf("404") // same as go-ipld-prime's memstore
+	}
+	return append([]byte(nil), b...), nil
+}
+
+func (m *lockedMem) Put(_ context.Context, key string, content []byte) error {
+	m.mu.Lock()
+	defer m.mu.Unlock()
+	if _, ok := m.Bag[key]; ok {
+		return nil
+	}
+	m.Bag[key] = append([]byte(nil), content...)
+	return nil
+}
+
+func (m *lockedMem) Delete(key string) {
+	m.mu.Lock()
+	delete(m.Bag, key)
+	m.mu.Unlock()
+}
+
+func (m *lockedMem) snapshot() map[string][]byte {
+	m.mu.RLock()
+	defer m.mu.RUnlock()
+	out := make(map[string][]byte, len(m.Bag))
+	for k, v := range m.Bag {
+		out[k] = v
+	}
+	return out
 }
 
 func NewStore() *Store {
-	s := &Store{Mem: &memstore.Store{}}
+	s := &Store{Mem: &lockedMem{Bag: map[string][]byte{}}}
 	s.Lsys = cidlink.DefaultLinkSystem()
 	s.Lsys.SetReadStorage(s.Mem)
 	s.Lsys.SetWriteStorage(s.Mem)
@@ -97,7 +142,7 @@ func (s *Store) NumWrites() int {
 // Audit re-hashes every stored value with the hash function and length of the
 // CID it is stored under. Returns the keys that do not verify.
 func (s *Store) Audit() (n int, bad []string) {
-	for k, v := range s.Mem.Bag {
+	for k, v := range s.Mem.snapshot() {
 		n++
 		c, err := cid.Cast([]byte(k))
 		if err != nil {
